@@ -1,5 +1,6 @@
 """C20 - diagrams show exactly the identified poles (stab_plot, cluster_plot, CMIF_plot and the classes' plot methods).
-Model: coq/Model/M_plot.v; theorems: coq/Properties/C20.v.
+Model: coq/Model/M_plot.v (marker / curve cores), coq/Model/M_plot_full.v (whole diagrams: error bars, limits, grid; the classes'
+plot methods as forwarding functions); theorems: coq/Properties/C20.v.
 
 Correspondence: the x/y data of the artists of the returned axes (Agg) vs the model evaluated in Coq (moved values: exact).
 Oracle: the property text written directly in NumPy (independent of the model) + "the marker's y is the order mpe accepts".
@@ -22,7 +23,7 @@ from pyoma2.functions import plot
 from pyoma2.functions import plscf as f_plscf
 from pyoma2.functions import ssi as f_ssi
 
-HEADER = "From PyOMA.Model Require Import M_plot."
+HEADER = "From PyOMA.Model Require Import M_plot M_plot_full."
 NAN = float("nan")
 
 
@@ -132,11 +133,123 @@ def errbars_on_markers(segs, pts):
     return None
 
 
+def read_bars(segs, pts):
+    """finite error-bar segments -> [(frequency of the marker the bar sits on, y, half-width)]; None when a bar is not on a marker"""
+    out = []
+    for s in segs:
+        (x0, y0), (x1, y1) = s
+        cands = [p[0] for p in pts if p[1] == y0]
+        if y0 != y1 or not cands:
+            return None
+        cx = 0.5 * (x0 + x1)
+        out.append((float(min(cands, key=lambda v: abs(v - cx))), float(y0), 0.5 * abs(x1 - x0)))
+    return out
+
+
+def oracle_bars(Fn, Lab, cov, step, hide):
+    """one bar per DRAWN marker whose pole has a finite deviation: (frequency, order value, the pole's own |cov * f|)"""
+    out = []
+    if cov is None:
+        return out
+    rows, cols = Fn.shape
+    for o in range(cols):
+        for i in range(rows):
+            f, c = Fn[i, o], cov[i, o]
+            if f != f or c != c:
+                continue  # rejected pole / no deviation: no bar
+            if Lab[i, o] == 1 or not hide:
+                out.append((float(f), float(o * step), abs(float(c) * float(f))))
+    return out
+
+
+def group_bars(bars):
+    g = {}
+    for f, y, e in bars:
+        g.setdefault((Fraction(float(f)), Fraction(float(y))), []).append(float(e))
+    return {k: sorted(v) for k, v in g.items()}
+
+
+def bars_problem(got, want, exact_clip):
+    """got: bars read from the axes; want: (f, y, own width).  Property level (exact_clip=None): exactly one bar per drawn marker with a
+    finite deviation, on that marker, never wider than the pole's own |cov * f| and equal to it up to 0.5 (the diagram's clip is the
+    code's business); model level (exact_clip=0.5 applied by the caller): widths equal."""
+    if got is None:
+        return "an error bar is not on a marker"
+    G, W = group_bars(got), group_bars(want)
+    for k in set(G) | set(W):
+        g, w = G.get(k, []), W.get(k, [])
+        if len(g) != len(w):
+            return "%d error bar(s) at marker (%r, %r) where %d drawn pole(s) there have a finite deviation" % (len(g), float(k[0]), float(k[1]), len(w))
+        tol = 1e-9 * max(1.0, abs(float(k[0])))
+        for a, b in zip(g, w):
+            if exact_clip:
+                ok = abs(a - b) <= tol
+            else:
+                ok = a <= b + tol and (b > 0.5 or abs(a - b) <= tol) and (b <= 0.5 or a > 0)
+            if not ok:
+                return "error bar at marker (%r, %r) has half-width %r, the pole's own deviation gives %r" % (float(k[0]), float(k[1]), a, b)
+    return None
+
+
+def parse_bars(s):
+    out = []
+    for fam in s.split("|"):
+        for tok in fam.split(" "):
+            if tok:
+                f, y, e = tok.split(",")
+                out.append((Fraction(int(f.split("/")[0]), int(f.split("/")[1])), Fraction(int(y)), Fraction(int(e.split("/")[0]), int(e.split("/")[1]))))
+    return out
+
+
+def parse_lim(s):
+    if s == "auto":
+        return None
+    a, b = s.split(",")
+    fr = lambda t: Fraction(int(t.split("/")[0]), int(t.split("/")[1])) if "/" in t else Fraction(int(t))   # noqa: E731
+    return (fr(a), fr(b))
+
+
+def lim_problem(got, want):
+    """axis limits read from the axes against the model's (None = left to Matplotlib: nothing to compare; equal ends are widened by Matplotlib)"""
+    if want is None or want[0] == want[1]:
+        return None
+    if (Fraction(float(got[0])), Fraction(float(got[1]))) != want:
+        return "limits are (%r, %r), model: (%r, %r)" % (float(got[0]), float(got[1]), float(want[0]), float(want[1]))
+    return None
+
+
+def coq_lim(lim):
+    return "None" if lim is None else "(Some (%s, %s))" % (qq(float(lim[0])), qq(float(lim[1])))
+
+
+def bars_out_estimate(Fn, cov):
+    tot = 0
+    for f, c in zip(np.asarray(Fn, float).ravel().tolist(), np.asarray(cov, float).ravel().tolist()):
+        if f == f and c == c:
+            a, b = Fraction(f).as_integer_ratio()
+            p, q = Fraction(c).as_integer_ratio()
+            tot += 2 * (len(str(a)) + len(str(b))) + len(str(p)) + len(str(q)) + 12
+    return tot
+
+
 # ----------------------------------------------------------------------------- option VALUE FORMS
 # Established on the unchanged tree (probe): CMIF_plot accepts nSv as Python int, any NumPy integer (np.int64/np.int32/np.intp, an element of
 # np.arange, the result of np.argmax) and "all" (a float or a numeric string raises TypeError: not generated); stab_plot / cluster_plot use
 # hide_poles by truthiness (True/False, 1/0, np.True_/np.False_, np.bool_(0), results of np.all/np.any); step / ordmin / ordmax as int or
 # np.int64; freqlim as tuple, list or ndarray (or None).  Every accepted form of one value must give the same diagram.
+# CALL FORMS.  The documented positional call must mean the same as the keyword call.  Parameter orders of the PRISTINE signatures, written
+# down here (never read from the tree at run time: a changed tree must not redefine the expected order):
+#   stab_plot(Fn, Lab, step, ordmax, ordmin, freqlim, hide_poles, fig, ax, Fn_cov)     cluster_plot(Fn, Xi, Lab, ordmin, freqlim, hide_poles)
+#   CMIF_plot(S_val, freq, freqlim, nSv, fig, ax)
+#   <SSI / pLSCF class>.plot_stab(freqlim, hide_poles)  .plot_cluster(freqlim, hide_poles)        <FDD class>.plot_CMIF(freqlim, nSv)
+# A positional case carries non-default values for every option (freqlim given, hide_poles=False, ordmin > 0, Fn_cov given, nSv a number).
+def some_freqlim(rng, lo=0.0, hi=45.0):
+    lim = None
+    while lim is None:
+        lim = gen_freqlim(rng, lo, hi)
+    return lim
+
+
 COUNT_FORMS = ["int", "int", "np.int64", "np.int32", "np.intp", "arange", "argmax"]
 SWITCH_FORMS = ["bool", "bool", "int", "np.bool_", "np.bool_()", "np.all/any"]
 STEP_FORMS = ["int", "int", "np.int64"]
@@ -451,8 +564,11 @@ def queue_cmif(S, nSv, nexp, item, exprs, meta):
     z = "None" if nSv == "all" else "(Some (%d)%%Z)" % int(nSv)
     lit = coq_cube(S)
     L = max(len("%d/%d" % Fraction(float(v)).as_integer_ratio()) for v in np.asarray(S, float).ravel().tolist())
-    if nexp * nf * (2 * L + 2) <= MAX_OUT:
-        exprs.append("let S := %s in showB (cubeb %d %d S) ++ \"#\" ++ show_cmif (cmif_curves S %s)" % (lit, n, nf, z))
+    freq = item[4]
+    Lf = max([len("%d/%d" % Fraction(float(v)).as_integer_ratio()) for v in np.asarray(freq, float).ravel().tolist()] or [1])
+    if nexp * nf * (2 * L + Lf + 3) <= MAX_OUT:   # the whole diagram: every curve with its grid, and the x-limits
+        exprs.append("let S := %s in showB (cubeb %d %d S) ++ \"#\" ++ show_cmif_diag (cmif_diagram (fun v : Q => v) S %s %s %s)"
+                     % (lit, n, nf, clist([qq(v) for v in np.asarray(freq, float).tolist()]), coq_lim(item[1].get("freqlim")), z))
         meta.append((item, 1))
         return
     exprs.append("let S := %s in showB (cubeb %d %d S) ++ \"#\" ++ match cmif_curves S %s with POk cs => \"O \" ++ showN (List.length cs) "
@@ -581,8 +697,14 @@ def table_case(ctx, case, exprs, meta, big):
         kw, ax0 = foreign_axes(amode)
         before = census(ax0)
         cov_w = None if cov is None else cov.copy()
-        fig, ax = plot.stab_plot(Fn_w, Lab_w, step_arg, step_form(ordmax, case.get("step_form", "int")), ordmin=step_form(int(case.get("ordmin", 0)), case.get("step_form", "int")),
-                                 freqlim=lim_arg, hide_poles=hide_arg, Fn_cov=cov_w, **kw)
+        positional = case.get("call_form") == "positional"
+        ctx.hist("call_form:stab_plot/cluster_plot", "positional" if positional else "keyword")
+        if positional:
+            fig, ax = plot.stab_plot(Fn_w, Lab_w, step_arg, step_form(ordmax, case.get("step_form", "int")), step_form(int(case.get("ordmin", 0)), case.get("step_form", "int")),
+                                     lim_arg, hide_arg, kw.get("fig"), kw.get("ax"), cov_w)
+        else:
+            fig, ax = plot.stab_plot(Fn_w, Lab_w, step_arg, step_form(ordmax, case.get("step_form", "int")), ordmin=step_form(int(case.get("ordmin", 0)), case.get("step_form", "int")),
+                                     freqlim=lim_arg, hide_poles=hide_arg, Fn_cov=cov_w, **kw)
         prob = census_problem(before, ax0, fig, ax)
         if prob:
             ctx.fail("oracle", "stab_plot (axes mode %s): %s - every marker must land in the diagram's own axes" % (amode, prob), case,
@@ -600,6 +722,14 @@ def table_case(ctx, case, exprs, meta, big):
         bad = errbars_on_markers(segs, st + un)
         if bad:
             ctx.fail("oracle", "stab_plot: " + bad, case, key="C20:stab_plot:errorbar")
+        else:   # exactly one bar per drawn marker with a finite deviation, with that pole's own width; none without a deviation table
+            res["bars"] = read_bars(segs, st + un)
+            bad = bars_problem(res["bars"], oracle_bars(Fn, Lab, cov, step, hide), False)
+            if bad:
+                ctx.fail("oracle", "stab_plot (Fn_cov %s): %s" % ("given" if cov is not None else "not given", bad), case, key="C20:stab_plot:errorbar-per-marker")
+        axd = ax0 if ax0 is not None else ax
+        res["xlim"], res["ylim"] = tuple(axd.get_xlim()), tuple(axd.get_ylim())
+        ctx.hist("stab_errorbars_drawn", min(len(segs) // 10 * 10, 50) if cov is not None else "no Fn_cov")
     except Exception as e:  # noqa: BLE001
         ctx.fail("oracle", "stab_plot raised %s: %s" % (type(e).__name__, str(e)[:200]), case, key="C20:stab_plot:raised")
     finally:
@@ -608,13 +738,17 @@ def table_case(ctx, case, exprs, meta, big):
     try:
         _kw, _ = foreign_axes("bystander" if (case.get("axes_mode") or "none") != "none" else "none")
         before = census(None)
-        fig, ax = plot.cluster_plot(Fn_w, Xi_w, Lab_w, ordmin=int(case.get("ordmin", 0)), freqlim=lim_arg, hide_poles=hide_arg)   # same arrays, same option forms
+        if case.get("call_form") == "positional":
+            fig, ax = plot.cluster_plot(Fn_w, Xi_w, Lab_w, int(case.get("ordmin", 0)), lim_arg, hide_arg)
+        else:
+            fig, ax = plot.cluster_plot(Fn_w, Xi_w, Lab_w, ordmin=int(case.get("ordmin", 0)), freqlim=lim_arg, hide_poles=hide_arg)   # same arrays, same option forms
         prob = census_problem(before, None, fig, ax)
         if prob:
             ctx.fail("oracle", "cluster_plot: %s" % prob, case, key="C20:cluster_plot:foreign-axes")
         arts, _ = read_axes(ax)
         st, un = split_families(arts, hide)
         res["cluster"] = (fr_pts(st), fr_pts(un))
+        res["cxlim"] = tuple(ax.get_xlim())
         if res["cluster"][0] != fr_pts(clu_o):
             ctx.fail("oracle", "cluster_plot: stable markers are not exactly the stable poles at (frequency, damping): got %s.. want %s.."
                      % (show_pts(res["cluster"][0]), show_pts(fr_pts(clu_o))), case, key="C20:cluster_plot:stable")
@@ -677,8 +811,32 @@ def table_case(ctx, case, exprs, meta, big):
             continue
         seen.add((f, y))
         pick_exprs.append("show_pick (mpe_pick Fn %s %s (%d))" % (qq(f), qq(float(case.get("rtol", 0.05))), y))
-    queue_tables(Fn, Xi, Lab, "stab_markers Fn Lab (%d) %s" % (step, "true" if hide else "false"), hide, pick_exprs,
+    # the WHOLE diagram of the model (markers, error bars, limits): stab_diagram / cluster_diagram with every argument the functions got
+    hb = "true" if hide else "false"
+    diag = "stab_diagram Fn Lab (%d) (%d) (%d) %s %s " % (step, ordmax, int(case.get("ordmin", 0)), coq_lim(freqlim), hb)
+    if cov is None or bars_out_estimate(Fn, cov) <= 9000:
+        res["extras"] = True
+        pick_exprs.append("show_stab_extras (%s) ++ \"!\" ++ show_lim (cd_xlim (cluster_diagram Fn Xi Lab (%d) %s %s))"
+                          % (diag + ("None" if cov is None else "(Some %s)" % coq_tab(cov)), int(case.get("ordmin", 0)), coq_lim(freqlim), hb))
+    else:
+        ctx.hist("error_bars_too_long_for_one_model_string", True)
+    # (the markers do not depend on the deviation table - C20_limits_only_limits - so the long literal is written once, in the extras)
+    queue_tables(Fn, Xi, Lab, "(let d := %sNone in (sd_stable d, sd_unstable d))" % diag, hide, pick_exprs,
                  ("tables", case, res, picks, (Fn, Xi)), exprs, meta, big)
+
+
+def compare_extras(ctx, case, res, tok, site):
+    """bars ! xlim ! ylim ! cluster xlim of the model against what was read from the axes"""
+    mb, mx, my, mcx = tok.split("!")
+    if res.get("bars") is not None:
+        bad = bars_problem(res["bars"], [(float(f), float(y), float(e)) for f, y, e in parse_bars(mb)], True)
+        if bad:
+            ctx.fail("correspondence", "%s error bars differ from stab_diagram (model): %s" % (site, bad), case, key="C20:%s:errorbar-corr" % site)
+    for what, got, want, key in (("x-limits", res.get("xlim"), parse_lim(mx), "xlim"), ("y-limits", res.get("ylim"), parse_lim(my), "ylim"),
+                                 ("cluster x-limits", res.get("cxlim"), parse_lim(mcx), "cluster-xlim")):
+        bad = None if got is None else lim_problem(got, want)
+        if bad:
+            ctx.fail("correspondence", "%s %s: %s" % ("cluster_plot" if key == "cluster-xlim" else site, what.replace("cluster ", ""), bad), case, key="C20:%s:%s" % (site, key))
 
 
 def compare_tables(ctx, m, s):
@@ -716,6 +874,8 @@ def compare_tables(ctx, m, s):
             if not (got[0] and Fraction(got[0][0]) == v and same_xi):
                 ctx.fail("correspondence", "%s picks another row than the model (model row %d) for marker (%r, %d)" % (name, r, f, y), case,
                          key="C20:%s:corr" % name)
+    if res.get("extras"):
+        compare_extras(ctx, case, res, parts[3 + len(uniq)], case.get("site") or "stab_plot")
 
 
 # ----------------------------------------------------------------------------- function level: CMIF_plot
@@ -761,7 +921,9 @@ def cmif_case(ctx, case, exprs, meta):
     nSv = case["nSv"]
     freqlim = case.get("freqlim")
     n, nf = S.shape[1], S.shape[2]
-    admissible = nSv == "all" or int(nSv) < n
+    grid_ok = len(freq) == nf   # a grid of another length than the array: Matplotlib refuses the first curve (C20_cmif_full, second clause)
+    admissible = (nSv == "all" or int(nSv) < n) and grid_ok
+    ctx.hist("cmif_grid", "same length" if grid_ok else "other length")
     ctx.count(case, nontrivial=admissible and (nSv == "all" or int(nSv) > 0))
     ctx.hist("cmif_nSv", "all" if nSv == "all" else ("inadmissible" if not admissible else "k<n"))
     dg = np.array([S[k, k] for k in range(min(S.shape[0], n))])
@@ -770,7 +932,7 @@ def cmif_case(ctx, case, exprs, meta):
     ctx.hist("cmif_exact_zero_singular_value", bool(np.isneginf(lv).any()))
     ctx.hist("cmif_finite_level_below_-156.5dB", bool((np.isfinite(lv) & (lv < -156.6)).any()))
     ctx.sample(dict(kind="cmif", shape=list(S.shape), nSv=nSv, freqlim=freqlim), limit=5)
-    res = None
+    res, xlim = None, None
     try:
         amode = case.get("axes_mode") or "none"
         ctx.hist("cmif_axes_mode", amode)
@@ -779,12 +941,17 @@ def cmif_case(ctx, case, exprs, meta):
         nSv_arg = count_form(nSv, case.get("nSv_form", "int"))
         ctx.hist("nSv_form", "all" if nSv == "all" else case.get("nSv_form", "int"))
         S_w, freq_w = S.copy(), freq.copy()
-        fig, ax = plot.CMIF_plot(S_w, freq_w, freqlim=lim_form(freqlim, case.get("freqlim_form", "tuple")), nSv=nSv_arg, **kw)
+        ctx.hist("call_form:CMIF_plot", case.get("call_form", "keyword"))
+        if case.get("call_form") == "positional":
+            fig, ax = plot.CMIF_plot(S_w, freq_w, lim_form(freqlim, case.get("freqlim_form", "tuple")), nSv_arg, kw.get("fig"), kw.get("ax"))
+        else:
+            fig, ax = plot.CMIF_plot(S_w, freq_w, freqlim=lim_form(freqlim, case.get("freqlim_form", "tuple")), nSv=nSv_arg, **kw)
         prob = census_problem(before, ax0, fig, ax)
         if prob:
             ctx.fail("oracle", "CMIF_plot (axes mode %s): %s - every curve must land in the diagram's own axes" % (amode, prob), case,
                      key="C20:CMIF_plot:foreign-axes")
         res = read_curves(ax0 if ax0 is not None else ax)
+        xlim = tuple((ax0 if ax0 is not None else ax).get_xlim())
     except ValueError:
         res = "ValueError"
     except Exception as e:  # noqa: BLE001
@@ -807,12 +974,13 @@ def cmif_case(ctx, case, exprs, meta):
                 finally:
                     plt.close("all")
     nexp = (n if nSv == "all" else max(int(nSv), 0)) if admissible else 0
-    queue_cmif(S, nSv, nexp, ("cmif", case, res, S, freq), exprs, meta)
+    queue_cmif(S, nSv, nexp, ("cmif", case, res, S, freq, xlim), exprs, meta)
 
 
 def compare_cmif(ctx, m, strs):
-    _, case, res, S, freq = m
-    ok, body = strs[0].split("#")
+    _, case, res, S, freq = m[:5]
+    head = strs[0].split("#")
+    ok, body = head[0], head[1]
     if ok != "T":
         ctx.fail("correspondence", "model hypothesis (n x n x nf array) does not hold on a generated case", case, key="C20:harness:cube")
         return
@@ -832,19 +1000,28 @@ def compare_cmif(ctx, m, strs):
     if isinstance(res, str):
         ctx.fail("correspondence", "CMIF_plot raised (%s) where the model draws curves" % res, case, key="C20:CMIF_plot:corr-error")
         return
-    if len(strs) == 1:   # short output: all curves in one line "O c0;c1;..."
+    grids = None
+    if len(strs) == 1:   # short output: the whole diagram in one line "O grid@c0;grid@c1;...#xlim"
         rows = [r for r in body[2:].split(";")] if body[2:].strip() else []
+        grids = [r.split("@")[0] for r in rows]
+        rows = [r.split("@")[1] for r in rows]
         ncurves = len(rows)
+        if len(m) > 5 and m[5] is not None and len(head) > 2:
+            badlim = lim_problem(m[5], parse_lim(head[2]))
+            if badlim:
+                ctx.fail("correspondence", "%s x-%s" % (case.get("site", "CMIF_plot"), badlim), case, key="C20:CMIF_plot:xlim")
     else:                # long output: "O <count>" then one line per curve
         rows = list(strs[1:])
         ncurves = int(body[2:])
-    want = [np.array([float(Fraction(int(t.split("/")[0]), int(t.split("/")[1]))) for t in r.split(" ")]) for r in rows if r != "E"]
+    fr = lambda t: float(Fraction(int(t.split("/")[0]), int(t.split("/")[1])))   # noqa: E731
+    want = [np.array([fr(t) for t in r.split(" ") if t]) for r in rows if r != "E"]
     bad = len(want) != len(res) or ncurves != len(res)
     for k in range(min(len(want), len(res))):
         x, y = res[k]
         with np.errstate(divide="ignore"):
             wdb = 10.0 * np.log10(want[k])
-        if not (np.array_equal(x, freq) and curve_match(y, wdb)):
+        wx = freq if grids is None else np.array([fr(t) for t in grids[k].split(" ") if t])   # the model's own grid of that curve
+        if not (np.array_equal(x, wx) and curve_match(y, wdb)):
             bad = True
     if bad:
         ctx.fail("correspondence", "CMIF_plot curves differ from cmif_curves (model): %d vs %d curves or a ratio off by more than 1e-9" % (len(res), len(want)),
@@ -1013,6 +1190,337 @@ def class_sequence_case(ctx, case):
         plt.close("all")
 
 
+# ----------------------------------------------------------------------------- class level: what the plot methods hand to the plot functions
+POLE_FIELDS = ["Fn_poles", "Xi_poles", "Lab", "Fn_poles_cov"]
+SPEC_FIELDS = ["S_val", "freq"]
+SSI_FAMILY = ["SSIdat", "SSIcov", "SSIdat_MS", "SSIcov_MS"]
+PLSCF_FAMILY = ["pLSCF", "pLSCF_MS"]
+FDD_FAMILY = ["FDD", "EFDD", "FSDD", "FDD_MS", "EFDD_MS"]
+
+
+class PlotSpy:
+    """records the effective arguments (defaults applied) with which the classes reach plot.stab_plot / cluster_plot / CMIF_plot"""
+    NAMES = ("stab_plot", "cluster_plot", "CMIF_plot")
+
+    def __init__(self):
+        self.calls = []
+        self.orig = {}
+
+    def __enter__(self):
+        import functools
+        import inspect
+
+        for nm in self.NAMES:
+            orig = getattr(plot, nm)
+            self.orig[nm] = orig
+
+            def wrapped(*a, __nm=nm, __orig=orig, **k):
+                try:
+                    ba = inspect.signature(__orig).bind(*a, **k)
+                    ba.apply_defaults()
+                    self.calls.append((__nm, dict(ba.arguments)))
+                except TypeError:
+                    self.calls.append((__nm, None))   # the call does not fit the signature: the function itself raises
+                return __orig(*a, **k)
+
+            setattr(plot, nm, functools.wraps(orig)(wrapped))
+        return self
+
+    def __exit__(self, *exc):
+        for nm, orig in self.orig.items():
+            setattr(plot, nm, orig)
+        return False
+
+    def take(self):
+        c, self.calls = self.calls, []
+        return c
+
+
+def field_of(v, result, fields):
+    """name of the result field an argument is (identity first, then an equal copy)"""
+    if v is None:
+        return "None"
+    for nm in fields:
+        if getattr(result, nm, None) is v:
+            return nm
+    for nm in fields:
+        w = getattr(result, nm, None)
+        if w is not None and np.shape(w) == np.shape(v) and np.array_equal(np.asarray(w, float), np.asarray(v, float), equal_nan=True):
+            return nm
+    return "<not a field of the result>"
+
+
+def show_lim_py(lim):
+    if lim is None:
+        return "auto"
+    return ",".join("%d/%d" % Fraction(float(v)).as_integer_ratio() for v in (lim[0], lim[1]))
+
+
+def show_args_py(fn, a, result):
+    """the same line the model prints (show_stab_args / show_clus_args / show_cmif_args), from the captured arguments"""
+    try:
+        if fn == "stab_plot":
+            return "C Fn=%s;Lab=%s;step=%d;ordmax=%d;ordmin=%d;freqlim=%s;hide_poles=%s;Fn_cov=%s" % (
+                field_of(a["Fn"], result, POLE_FIELDS), field_of(a["Lab"], result, POLE_FIELDS), int(a["step"]), int(a["ordmax"]), int(a["ordmin"]),
+                show_lim_py(a["freqlim"]), "T" if a["hide_poles"] else "F", field_of(a["Fn_cov"], result, POLE_FIELDS))
+        if fn == "cluster_plot":
+            return "C Fn=%s;Xi=%s;Lab=%s;ordmin=%d;freqlim=%s;hide_poles=%s" % (
+                field_of(a["Fn"], result, POLE_FIELDS), field_of(a["Xi"], result, POLE_FIELDS), field_of(a["Lab"], result, POLE_FIELDS), int(a["ordmin"]),
+                show_lim_py(a["freqlim"]), "T" if a["hide_poles"] else "F")
+        return "C S_val=%s;freq=%s;freqlim=%s;nSv=%s" % (field_of(a["S_val"], result, SPEC_FIELDS), field_of(a["freq"], result, SPEC_FIELDS),
+                                                        show_lim_py(a["freqlim"]), "all" if isinstance(a["nSv"], str) and a["nSv"] == "all" else "%d" % int(a["nSv"]))
+    except Exception as e:  # noqa: BLE001
+        return "unreadable arguments (%s: %s)" % (type(e).__name__, str(e)[:80])
+
+
+def coq_names(has_cov):
+    return ('{| pr_Fn := "Fn_poles"; pr_Xi := "Xi_poles"; pr_Lab := "Lab"; pr_cov := %s |}' % ('Some "Fn_poles_cov"' if has_cov else "None"),
+            '{| sr_S := "S_val"; sr_freq := "freq" |}')
+
+
+def coq_runset(step, ordmin, ordmax):
+    return "{| rs_step := (%d)%%Z; rs_ordmin := (%d)%%Z; rs_ordmax := (%d)%%Z |}" % (step, ordmin, ordmax)
+
+
+def coq_nsv(nSv):
+    return "None" if nSv == "all" else "(Some (%d)%%Z)" % int(nSv)
+
+
+def forwarding_expr(cls_name, has_cov, rs, lim, hide, nSv, run):
+    """one model line: what the three plot methods of the class hand on (tables by field NAME); run=False: before any result exists"""
+    pn, sn = coq_names(has_cov)
+    hb = "true" if hide else "false"
+    pres = "(Some %s)" % pn if run else "None"
+    sres = "(Some %s)" % sn if run else "None"
+    return ("show_call show_stab_args (class_plot_stab (T:=string) (L:=string) %s %s %s %s %s) ++ \"$\" ++ "
+            "show_call show_clus_args (class_plot_cluster (T:=string) (L:=string) %s %s %s %s %s) ++ \"$\" ++ "
+            "show_call show_cmif_args (class_plot_cmif (V:=string) (F:=string) %s %s %s %s)"
+            % (cls_name, pres, rs, lim, hb, cls_name, pres, rs, lim, hb, cls_name, sres, lim, coq_nsv(nSv)))
+
+
+def call_method(ctx, alg, spy, meth, kwargs, positional=False):
+    """-> (status, fig, ax, captured) ; status 'nomethod' | 'raises' | 'ok'"""
+    if not hasattr(alg, meth):
+        return "nomethod", None, None, []
+    try:
+        if positional:   # pristine order: (freqlim, hide_poles) / (freqlim, nSv)
+            fig, ax = getattr(alg, meth)(kwargs["freqlim"], kwargs["nSv" if meth == "plot_CMIF" else "hide_poles"])
+        else:
+            fig, ax = getattr(alg, meth)(**kwargs)
+        return "ok", fig, ax, spy.take()
+    except Exception as e:  # noqa: BLE001
+        return "raises %s: %s" % (type(e).__name__, str(e)[:120]), None, None, spy.take()
+
+
+def class_synth_case(ctx, case, exprs, meta):
+    """A class's plot methods on a HAND-MADE result (any table, any NaN pattern, any step, with / without deviations): no algorithm is run.
+    Compared: the keyword arguments the plot function receives (which result field / run setting goes where) with class_plot_* of the model,
+    the returned diagram with class_*_diagram of the model, and the property text on the returned diagram."""
+    import pyoma2.algorithms as algs
+
+    cls_name = case["cls"]
+    cls = getattr(algs, cls_name)
+    fam = "ssi" if cls_name in SSI_FAMILY else ("plscf" if cls_name in PLSCF_FAMILY else "fdd")
+    step, ordmin, ordmax = int(case["step"]), int(case["ordmin"]), int(case["ordmax"])
+    hide, nSv = bool(case["hide"]), case["nSv"]
+    freqlim = None if case.get("freqlim") is None else tuple(case["freqlim"])
+    hform, lform, nform = case.get("hide_form", "bool"), case.get("freqlim_form", "tuple"), case.get("nSv_form", "int")
+    ctx.count(case, nontrivial=True)
+    ctx.hist("synthetic_result_class", cls_name)
+    ctx.hist("call_form:class plot methods", case.get("call_form", "keyword"))
+    ctx.sample(dict(kind="class on hand-made result", cls=cls_name, step=step, ordmin=ordmin, ordmax=ordmax, hide=hide, freqlim=freqlim, nSv=nSv), limit=8)
+    if fam == "ssi":
+        alg = cls(name="s", br=4, ordmax=ordmax, ordmin=ordmin, step=step)
+    elif fam == "plscf":
+        alg = cls(name="s", ordmax=ordmax, ordmin=ordmin)
+    else:
+        alg = cls(name="s")
+    kw = dict(plot_stab=dict(freqlim=lim_form(freqlim, lform), hide_poles=switch_form(hide, hform)),
+              plot_cluster=dict(freqlim=lim_form(freqlim, lform), hide_poles=switch_form(hide, hform)),
+              plot_CMIF=dict(freqlim=lim_form(freqlim, lform), nSv=count_form(nSv, nform)))
+    rs = coq_runset(step, ordmin, ordmax)
+    lim = coq_lim(freqlim)
+    got = dict(before={}, after={})
+    with PlotSpy() as spy:
+        try:
+            # ---- before any result exists: every plot method raises, no plot function is reached
+            for meth in kw:
+                st, _f, _a, cap = call_method(ctx, alg, spy, meth, kw[meth])
+                got["before"][meth] = "nomethod" if st == "nomethod" else ("raises" if st.startswith("raises") and not cap else "reached a plot function")
+                plt.close("all")
+            # ---- the hand-made result
+            if fam == "fdd":
+                S, freq = np.array(case["S"], float), np.array(case["freq"], float)
+                alg.result = alg.ResultCls(freq=freq, S_val=S)
+                has_cov = False
+            else:
+                Fn, Xi, Lab = _arr(case["Fn"]), _arr(case["Xi"]), np.array(case["Lab"])
+                cov = None if case.get("Fn_cov") is None else _arr(case["Fn_cov"])
+                has_cov = cov is not None and fam == "ssi"
+                if fam == "ssi":
+                    alg.result = alg.ResultCls(Fn_poles=Fn, Xi_poles=Xi, Lab=Lab, Fn_poles_cov=cov)
+                else:
+                    alg.result = alg.ResultCls(Fn_poles=Fn, Xi_poles=Xi, Lab=Lab)
+                cstep = step if fam == "ssi" else 1
+            r = alg.result
+            for meth, fn in (("plot_stab", "stab_plot"), ("plot_cluster", "cluster_plot"), ("plot_CMIF", "CMIF_plot")):
+                st, fig, ax, cap = call_method(ctx, alg, spy, meth, kw[meth], positional=case.get("call_form") == "positional")
+                site = "%s.%s" % (cls_name, meth)
+                if st == "nomethod":
+                    got["after"][meth] = dict(line="nomethod")
+                    continue
+                if st != "ok":
+                    got["after"][meth] = dict(line=st)
+                    if not (meth == "plot_CMIF" and nSv != "all" and int(nSv) >= np.shape(r.S_val)[1] and st.startswith("raises ValueError")):
+                        ctx.fail("oracle", "%s on a result with tables raised: %s" % (site, st), case, key="C20:%s:raised" % site)
+                    plt.close("all")
+                    continue
+                mine = [c for c in cap if c[0] == fn]
+                d = dict(line=show_args_py(fn, mine[0][1], r) if len(mine) == 1 and mine[0][1] is not None else None, ncalls=len(cap))
+                if meth == "plot_CMIF" and fam != "fdd":
+                    pass
+                elif meth == "plot_CMIF":
+                    d["curves"] = read_curves(ax)
+                    d["xlim"] = tuple(ax.get_xlim())
+                    check_curves(ctx, d["curves"], freq, oracle_cmif(S, nSv), case, site)
+                elif fam == "fdd":
+                    pass
+                else:
+                    arts, segs = read_axes(ax)
+                    stp, unp = split_families(arts, hide)
+                    d["markers"] = (fr_pts(stp), fr_pts(unp))
+                    d["xlim"] = tuple(ax.get_xlim())
+                    if meth == "plot_stab":
+                        d["ylim"] = tuple(ax.get_ylim())
+                        ws, wu = oracle_stab(Fn, Lab, cstep, hide)
+                        if d["markers"] != (fr_pts(ws), fr_pts(wu)):
+                            ctx.fail("oracle", "%s (hand-made result, class step %d, hide_poles=%s): markers are not the retained poles of result.Fn_poles/Lab at (frequency, column * step): "
+                                     "got %d+%d %s.. want %d+%d %s.." % (site, cstep, hide, len(d["markers"][0]), len(d["markers"][1]), show_pts(d["markers"][0], 3),
+                                                                          len(ws), len(wu), show_pts(fr_pts(ws), 3)), case, key="C20:%s:%s" % (site, "stable" if d["markers"][0] != fr_pts(ws) else "unstable"))
+                        bad = errbars_on_markers(segs, stp + unp)
+                        if not bad:
+                            d["bars"] = read_bars(segs, stp + unp)
+                            bad = bars_problem(d["bars"], oracle_bars(Fn, Lab, cov if fam == "ssi" else None, cstep, hide), False)
+                        if bad:
+                            ctx.fail("oracle", "%s (result.Fn_poles_cov %s): %s" % (site, "given" if has_cov else "absent", bad), case, key="C20:%s:errorbar" % site)
+                    else:
+                        ws, wu = oracle_cluster(Fn, Xi, Lab, hide)
+                        if d["markers"] != (fr_pts(ws), fr_pts(wu)):
+                            ctx.fail("oracle", "%s (hand-made result, hide_poles=%s): markers are not the retained poles of the result at (frequency, damping): got %d+%d want %d+%d"
+                                     % (site, hide, len(d["markers"][0]), len(d["markers"][1]), len(ws), len(wu)), case, key="C20:%s:markers" % site)
+                got["after"][meth] = d
+                plt.close("all")
+            a, b = got["after"].get("plot_stab", {}), got["after"].get("plot_cluster", {})
+            if "markers" in a and "markers" in b and np.array_equal(np.isnan(Fn), np.isnan(Xi)):
+                if any(sorted(q[0] for q in a["markers"][kk]) != sorted(q[0] for q in b["markers"][kk]) for kk in (0, 1)):
+                    ctx.fail("oracle", "%s on one result (hide_poles=%s): plot_stab and plot_cluster do not show the same poles: %d+%d vs %d+%d markers"
+                             % (cls_name, hide, len(a["markers"][0]), len(a["markers"][1]), len(b["markers"][0]), len(b["markers"][1])), case, key="C20:%s:same-poles" % cls_name)
+        finally:
+            plt.close("all")
+    # ---- model: forwarding (by field name) before / after, then the diagrams
+    es = [forwarding_expr(cls_name, False, rs, lim, hide, nSv, run=False), forwarding_expr(cls_name, has_cov, rs, lim, hide, nSv, run=True)]
+    hb = "true" if hide else "false"
+    if fam == "fdd":
+        es.append("let S := %s in showB (cubeb %d %d S) ++ \"$\" ++ show_call show_cmif_diag (class_cmif_diagram (fun v : Q => v) %s (Some {| sr_S := S; sr_freq := %s |}) %s %s)"
+                  % (coq_cube(S), S.shape[1], S.shape[2], cls_name, clist([qq(v) for v in freq.tolist()]), lim, coq_nsv(nSv)))
+    else:
+        rows, cols = Fn.shape
+        es.append("let r := {| pr_Fn := %s; pr_Xi := %s; pr_Lab := %s; pr_cov := %s |} in showB (rectb %d %d (pr_Fn r) && rectb %d %d (pr_Xi r) && rectb %d %d (pr_Lab r))%%bool ++ \"$\" ++ "
+                  "show_call show_stab_diag (class_stab_diagram %s (Some r) %s %s %s) ++ \"$\" ++ show_call show_clus_diag (class_cluster_diagram %s (Some r) %s %s %s)"
+                  % (coq_tab(Fn), coq_tab(Xi), coq_lab(Lab), "None" if cov is None else "(Some %s)" % coq_tab(cov), rows, cols, rows, cols, rows, cols,
+                     cls_name, rs, lim, hb, cls_name, rs, lim, hb))
+    exprs += es
+    meta.append((("synth", case, got, fam), len(es)))
+
+
+def unused_dropped(meth, line):
+    """cluster_plot accepts ordmin and never uses it: whatever a class hands on there cannot show in the diagram, so it is not compared"""
+    import re
+    return re.sub(r";ordmin=-?\d+", "", line) if meth == "plot_cluster" else line
+
+
+def compare_synth(ctx, m, strs):
+    _, case, got, fam = m
+    cls_name = case["cls"]
+    meths = ["plot_stab", "plot_cluster", "plot_CMIF"]
+    # ---- before a run
+    for meth, tok in zip(meths, strs[0].split("$")):
+        g = got["before"].get(meth)
+        if g is None:
+            continue
+        if tok == "nomethod":
+            if g != "nomethod":
+                ctx.note("%s has a method %s the model does not know (not compared)" % (cls_name, meth))
+        elif tok != g:
+            ctx.fail("correspondence", "%s.%s before any result exists: model says %r, implementation: %s" % (cls_name, meth, tok, g), case, key="C20:%s.%s:not-run" % (cls_name, meth))
+    # ---- forwarding
+    for meth, tok in zip(meths, strs[1].split("$")):
+        d = got["after"].get(meth)
+        if d is None or tok == "nomethod":
+            if d is not None and d.get("line") != "nomethod":
+                ctx.note("%s has a method %s the model does not know (not compared)" % (cls_name, meth))
+            continue
+        if d.get("line") == "nomethod":
+            ctx.fail("correspondence", "%s has no method %s (model: %s)" % (cls_name, meth, tok), case, key="C20:%s.%s:missing" % (cls_name, meth))
+        elif d.get("line") is None:
+            if "ncalls" in d:
+                ctx.note("%s.%s did not reach the plot function through pyoma2.functions.plot exactly once (%d calls seen): forwarded arguments not compared" % (cls_name, meth, d["ncalls"]))
+        elif d["line"].startswith("C ") and unused_dropped(meth, d["line"]) != unused_dropped(meth, tok):
+            ctx.fail("correspondence", "%s.%s hands other arguments to the plot function than the model: implementation %s ; model %s" % (cls_name, meth, d["line"][2:], tok[2:]),
+                     case, key="C20:%s.%s:forwarded-arguments" % (cls_name, meth))
+    # ---- diagrams
+    parts = strs[2].split("$")
+    if parts[0] != "T":
+        ctx.fail("correspondence", "model hypotheses (rectangular tables / n x n x nf array) do not hold on a generated class case", case, key="C20:harness:rect")
+        return
+    if fam == "fdd":
+        d = got["after"].get("plot_CMIF", {})
+        body = parts[1]
+        if "curves" not in d:
+            if body.startswith("C O"):
+                ctx.fail("correspondence", "%s.plot_CMIF gave no diagram (%s) where the model draws curves" % (cls_name, d.get("line")), case, key="C20:%s.plot_CMIF:corr" % cls_name)
+            return
+        if not body.startswith("C O "):
+            n, nSv = np.shape(case["S"])[1], case["nSv"]
+            if nSv != "all" and int(nSv) == n:
+                ctx.not_judged += 1   # nSv = n accepted and drawn: outside what the property constrains (see compare_cmif)
+                return
+            ctx.fail("correspondence", "%s.plot_CMIF drew %d curves where the model says %s" % (cls_name, len(d["curves"]), body), case, key="C20:%s.plot_CMIF:corr" % cls_name)
+            return
+        cur, mlim = body[4:].split("#")
+        rows = [c for c in cur.split(";")] if cur.strip() else []
+        bad = len(rows) != len(d["curves"])
+        fr = lambda t: float(Fraction(int(t.split("/")[0]), int(t.split("/")[1])))   # noqa: E731
+        for (x, y), row in zip(d["curves"], rows):
+            mx, my = row.split("@")
+            wx = np.array([fr(t) for t in mx.split(" ") if t])
+            with np.errstate(divide="ignore"):
+                wy = 10.0 * np.log10(np.array([fr(t) for t in my.split(" ") if t]))
+            if not (np.array_equal(x, wx) and curve_match(y, wy)):
+                bad = True
+        if bad:
+            ctx.fail("correspondence", "%s.plot_CMIF curves differ from class_cmif_diagram (model): %d vs %d curves, or a grid value / ratio differs" % (cls_name, len(d["curves"]), len(rows)),
+                     case, key="C20:%s.plot_CMIF:corr" % cls_name)
+        bad = lim_problem(d["xlim"], parse_lim(mlim))
+        if bad:
+            ctx.fail("correspondence", "%s.plot_CMIF x-%s" % (cls_name, bad), case, key="C20:%s.plot_CMIF:xlim" % cls_name)
+        return
+    ds, dc = got["after"].get("plot_stab", {}), got["after"].get("plot_cluster", {})
+    if "markers" in ds and parts[1].startswith("C "):
+        mk, bars, mx, my = parts[1][2:].split("#")
+        if parse_two(mk) != ds["markers"]:
+            ctx.fail("correspondence", "%s.plot_stab markers differ from class_stab_diagram (model): impl %d+%d, model %d+%d"
+                     % (cls_name, len(ds["markers"][0]), len(ds["markers"][1]), len(parse_two(mk)[0]), len(parse_two(mk)[1])), case, key="C20:%s.plot_stab:corr" % cls_name)
+        compare_extras(ctx, case, dict(bars=ds.get("bars"), xlim=ds["xlim"], ylim=ds["ylim"]), "%s!%s!%s!auto" % (bars, mx, my), "%s.plot_stab" % cls_name)
+    if "markers" in dc and parts[2].startswith("C "):
+        mk, mx = parts[2][2:].split("#")
+        if parse_two(mk) != dc["markers"]:
+            ctx.fail("correspondence", "%s.plot_cluster markers differ from class_cluster_diagram (model)" % cls_name, case, key="C20:%s.plot_cluster:corr" % cls_name)
+        bad = lim_problem(dc["xlim"], parse_lim(mx))
+        if bad:
+            ctx.fail("correspondence", "%s.plot_cluster x-%s" % (cls_name, bad), case, key="C20:%s.plot_cluster:xlim" % cls_name)
+
+
 # ----------------------------------------------------------------------------- class level
 def class_case(ctx, case, exprs, meta, big):
     from pyoma2.algorithms import FDD, SSIcov, SSIdat, pLSCF
@@ -1056,7 +1564,10 @@ def class_case(ctx, case, exprs, meta, big):
                 sub = dict(case, nSv=nSv, freqlim=freqlim, nSv_form=nform, freqlim_form=lform)
                 ctx.hist("class_nSv_form", "all" if nSv == "all" else nform)
                 try:
-                    fig, ax = alg.plot_CMIF(freqlim=lim_form(freqlim, lform), nSv=count_form(nSv, nform))
+                    if freqlim is not None and nSv != "all":   # positional call form, non-default values: plot_CMIF(freqlim, nSv)
+                        fig, ax = alg.plot_CMIF(lim_form(freqlim, lform), count_form(nSv, nform))
+                    else:
+                        fig, ax = alg.plot_CMIF(freqlim=lim_form(freqlim, lform), nSv=count_form(nSv, nform))
                     curves = read_curves(ax)
                     check_curves(ctx, curves, freq, oracle_cmif(S, nSv), sub, "FDD.plot_CMIF")
                 except Exception as e:  # noqa: BLE001
@@ -1070,6 +1581,8 @@ def class_case(ctx, case, exprs, meta, big):
     Fn, Xi, Lab = np.array(r.Fn_poles, float), np.array(r.Xi_poles, float), np.array(r.Lab)
     rows, cols = Fn.shape
     step = int(alg.run_params.step) if cls_name.startswith("SSI") else 1
+    cov = np.array(r.Fn_poles_cov, float) if cls_name.startswith("SSI") and getattr(r, "Fn_poles_cov", None) is not None else None
+    ctx.hist("class_result_has_Fn_poles_cov", cov is not None)
     ctx.hist("class_stable_poles", min(int(((Lab == 1) & np.isfinite(Fn)).sum()) // 5 * 5, 50))
     hforms = case.get("hide_forms")
     for hide in (True, False):
@@ -1082,7 +1595,10 @@ def class_case(ctx, case, exprs, meta, big):
             want_s, want_u = oracle_stab(Fn, Lab, step, hide)
             got = None
             try:
-                fig, ax = alg.plot_stab(freqlim=lim_arg, hide_poles=hide_arg)
+                if freqlim is not None and not hide:   # positional call form, non-default values: plot_stab(freqlim, hide_poles)
+                    fig, ax = alg.plot_stab(lim_arg, hide_arg)
+                else:
+                    fig, ax = alg.plot_stab(freqlim=lim_arg, hide_poles=hide_arg)
                 arts, segs = read_axes(ax)
                 st, un = split_families(arts, hide)
                 got = (fr_pts(st), fr_pts(un))
@@ -1093,8 +1609,13 @@ def class_case(ctx, case, exprs, meta, big):
                     ctx.fail("oracle", "%s.plot_stab(hide_poles=%s): unstable markers: got %d, want %d" % (cls_name, hide, len(got[1]), len(want_u)), sub,
                              key="C20:%s.plot_stab:unstable" % cls_name)
                 bad = errbars_on_markers(segs, st + un)
+                bars = None
+                if not bad:   # one bar per drawn marker whose pole has a finite deviation in result.Fn_poles_cov, none otherwise
+                    bars = read_bars(segs, st + un)
+                    bad = bars_problem(bars, oracle_bars(Fn, Lab, cov, step, hide), False)
                 if bad:
                     ctx.fail("oracle", "%s.plot_stab: %s" % (cls_name, bad), sub, key="C20:%s.plot_stab:errorbar" % cls_name)
+                lims = (tuple(ax.get_xlim()), tuple(ax.get_ylim()))
             except Exception as e:  # noqa: BLE001
                 ctx.fail("oracle", "%s.plot_stab raised %s: %s" % (cls_name, type(e).__name__, str(e)[:200]), sub, key="C20:%s.plot_stab:raised" % cls_name)
             finally:
@@ -1102,7 +1623,10 @@ def class_case(ctx, case, exprs, meta, big):
             want_cs, want_cu = oracle_cluster(Fn, Xi, Lab, hide)
             gotc = None
             try:
-                fig, ax = alg.plot_cluster(freqlim=lim_arg, hide_poles=hide_arg)
+                if freqlim is not None and not hide:
+                    fig, ax = alg.plot_cluster(lim_arg, hide_arg)
+                else:
+                    fig, ax = alg.plot_cluster(freqlim=lim_arg, hide_poles=hide_arg)
                 arts, _ = read_axes(ax)
                 st, un = split_families(arts, hide)
                 gotc = (fr_pts(st), fr_pts(un))
@@ -1118,14 +1642,20 @@ def class_case(ctx, case, exprs, meta, big):
                     ctx.fail("oracle", "%s with hide_poles=%r (%s): the two diagrams do not show the same poles: plot_stab %d stable / %d unstable, plot_cluster %d / %d"
                              % (cls_name, hide_arg, hform, len(got[0]), len(got[1]), len(gotc[0]), len(gotc[1])), sub, key="C20:%s:same-poles" % cls_name)
             if freqlim is None:
+                # the model's class-level diagram on the result record (run settings as the class holds them)
                 hb = "true" if hide else "false"
-                fam = "ssi_plot_stab Fn Lab (%d) %s" % (step, hb) if cls_name.startswith("SSI") else "plscf_plot_stab Fn Lab %s" % hb
-                res = {}
+                rs = coq_runset(step, int(alg.run_params.ordmin), int(alg.run_params.ordmax))
+                call = "class_stab_diagram %s (Some {| pr_Fn := Fn; pr_Xi := Xi; pr_Lab := Lab; pr_cov := COV |}) %s None %s" % (cls_name, rs, hb)
+                fam = "(match %s with Called d => (sd_stable d, sd_unstable d) | _ => ([], []) end)" % call.replace("COV", "None")
+                res, extra = {}, []
                 if got is not None:
                     res["stab"] = got
+                    if cov is None or bars_out_estimate(Fn, cov) <= 9000:
+                        res.update(extras=True, bars=bars, xlim=lims[0], ylim=lims[1])
+                        extra = ["match %s with Called d => show_stab_extras d | _ => \"raises!auto!auto\" end ++ \"!auto\"" % call.replace("COV", "None" if cov is None else "(Some %s)" % coq_tab(cov))]
                 if gotc is not None:
                     res["cluster"] = gotc
-                queue_tables(Fn, Xi, Lab, fam, hide, [], ("tables", dict(sub, site=cls_name), res, [], (Fn, Xi)), exprs, meta, big)
+                queue_tables(Fn, Xi, Lab, fam, hide, extra, ("tables", dict(sub, site="%s.plot_stab" % cls_name), res, [], (Fn, Xi)), exprs, meta, big)
             # the marker's order value is what mpe accepts for that pole
             if hide and freqlim is None and got is not None:
                 marks = got[0]
@@ -1169,12 +1699,20 @@ def run(ctx):
     rng = ctx.np_rng
     ctx.extra["rule"] = ("function level: random non-square pole/label tables (repeated frequencies, NaN patterns random / SSI-triangular / sparse, ~15 % degenerate), "
                          "step 1-5, hide on/off, freqlim, Fn_cov; CMIF: n x n x nf arrays with non-zero off-diagonals, nSv all / -1..n+1; class level: SSIcov/SSIdat/pLSCF/FDD "
-                         "through SingleSetup.  Non-trivial = at least one marker (or one curve) is due; distinct by hash of the whole case")
+                         "through SingleSetup; every class (SSIdat/SSIcov/pLSCF/FDD/EFDD/FSDD and the *_MS ones) on hand-made results (any table, step 1-3, with / without "
+                         "deviation table) with the arguments reaching the plot functions recorded; ~25-35 % of the calls fully positional in the pristine parameter order.  "
+                         "Non-trivial = at least one marker (or one curve) is due; distinct by hash of the whole case")
     ctx.assumptions += [
         "Matplotlib data accessors (Line2D.get_xdata/get_ydata, PathCollection.get_offsets, ErrorbarContainer.lines, LineCollection.get_segments) return the data handed to the artists",
         "stable/unstable families are told apart by legend label when present, else Line2D = stable, PathCollection = unstable (colour/marker style never inspected)",
         "10*log10 is applied outside the model (DESIGN 3.4): 10**(y/10) is compared with the model's exact ratio at relative 1e-9",
         "C20_marker_accepted models the explicit-order branch of SSI_mpe/pLSCF_mpe by mpe_pick (column = order argument); tied to the functions on the drawn markers of step-1 cases",
+        "error bars are read from the LineCollection segments of the ErrorbarContainers: centre = segment midpoint snapped to the nearest drawn marker of that order value, half-width = half the "
+        "segment length, compared at 1e-9 * max(1, |f|); property level: one bar per drawn marker with a finite deviation, never wider than the pole's own |cov*f| and equal to it up to 0.5; the clip "
+        "at 0.5 itself is compared with the model only (colours never inspected)",
+        "axis limits (x-limits = freqlim, y-limits = (ordmin, ordmax+1) when unstable poles are shown) are compared with the model only (correspondence), never judged against the property text",
+        "class level on hand-made results: alg.result is assigned a ResultCls instance built from generated tables (no algorithm run); the arguments reaching plot.stab_plot / cluster_plot / CMIF_plot are "
+        "recorded by wrapping those three attributes of pyoma2.functions.plot and mapped to result fields by identity (then equality); cluster_plot's unused ordmin is not compared",
         "class level: SSI classes can only produce a result with step = 1 (SSI_poles raises IndexError for step > 1 unless ordmax = step, where no pole can be labelled stable), pLSCF passes step = 1",
     ]
     exprs, meta, big = [], [], []
@@ -1192,6 +1730,8 @@ def run(ctx):
             sequence_case(ctx, case, exprs, meta, big)
         elif case["type"] == "class_sequence":
             class_sequence_case(ctx, case)
+        elif case["type"] == "class_synth":
+            class_synth_case(ctx, case, exprs, meta)
     # ---- function level: tables
     n_tab = ctx.n(100, 450)
     for k in range(n_tab):
@@ -1208,6 +1748,10 @@ def run(ctx):
                     redraw=bool(rng.random() < 0.25),
                     Fn_cov=None if cov is None else jl(cov), ordmin=int(rng.integers(0, 3)), axes_mode=str(rng.choice(["none", "none", "none", "bystander", "panel", "panel", "otherfig"])),
                     pick_idx=[int(v) for v in rng.integers(0, nst, size=2)], rtol=float(rng.choice([0.05, 0.01, 0.0])))
+        if rng.random() < 0.25:   # the documented positional call, every option at a non-default value
+            if cov is None:
+                cov = gen_cov(rng, Fn)
+            case.update(call_form="positional", freqlim=some_freqlim(rng), hide=False, ordmin=int(rng.integers(1, 3)), Fn_cov=jl(cov))
         table_case(ctx, case, exprs, meta, big)
     # ---- function level: CMIF
     for k in range(ctx.n(40, 240)):
@@ -1236,6 +1780,10 @@ def run(ctx):
         case = dict(type="cmif", S=S.tolist(), freq=freq.tolist(), nSv=nSv, freqlim=gen_freqlim(rng, 0.0, float(freq[-1])),
                     nSv_form=str(rng.choice(COUNT_FORMS)), freqlim_form=str(rng.choice(LIM_FORMS)), redraw=bool(rng.random() < 0.3),
                     axes_mode=str(rng.choice(["none", "none", "bystander", "panel", "otherfig"])))
+        if rng.random() < 0.25:
+            case.update(call_form="positional", freqlim=some_freqlim(rng, 0.0, float(freq[-1])), nSv=int(rng.integers(1, n)))
+        elif rng.random() < 0.1:   # malformed: the grid has one line less than the array
+            case.update(freq=freq[:-1].tolist(), redraw=False)
         cmif_case(ctx, case, exprs, meta)
     # ---- diagrams are independent objects: sequences A, B, A', ... with every returned (fig, ax) kept and re-read at the end
     for k in range(ctx.n(12, 60)):
@@ -1265,6 +1813,27 @@ def run(ctx):
                                       algs=dict(a=("SSIcov", dict(br=7, ordmax=9)), b=a2, c=("FDD", dict(nxseg=64))),
                                       calls=[["a", "cluster", True], ["a", "stab", False], ["b", "cluster", False], ["c", "CMIF", True],
                                              ["b", "stab", True], ["a", "cluster", False], ["b", "cluster", True]]))
+    # ---- class level on hand-made results: every class (also the multi-setup and derived ones), any table / step / deviations, no algorithm run
+    for k in range(ctx.n(22, 110)):
+        cls_name = (SSI_FAMILY + PLSCF_FAMILY + FDD_FAMILY + SSI_FAMILY + PLSCF_FAMILY + FDD_FAMILY)[k] if k < 22 else str(rng.choice(SSI_FAMILY + SSI_FAMILY + PLSCF_FAMILY + FDD_FAMILY))
+        case = dict(type="class_synth", cls=cls_name, step=int(rng.choice([1, 2, 3])), ordmin=int(rng.choice([0, 4, 6])), ordmax=int(rng.integers(9, 15)),
+                    hide=bool(rng.random() < 0.5), freqlim=gen_freqlim(rng), hide_form=str(rng.choice(SWITCH_FORMS)), freqlim_form=str(rng.choice(LIM_FORMS)),
+                    nSv_form=str(rng.choice(COUNT_FORMS)), nSv="all")
+        if cls_name in FDD_FAMILY:
+            n, nf = int(rng.integers(2, 5)), int(rng.integers(3, 9))
+            S = rng.integers(1, 4096, size=(n, n, nf)) / 64.0
+            for j in range(1, n):
+                S[j, j] = S[j, j] / 2 ** int(rng.integers(0, 5))
+            case.update(S=S.tolist(), freq=(np.cumsum(rng.integers(1, 9, size=nf)) / 16.0).tolist(), nSv=("all" if rng.random() < 0.4 else int(rng.integers(-1, n + 1))))
+        else:
+            kind, Fn, Xi, Lab = gen_tables(ctx, rng, 7, degenerate=rng.random() < 0.1)
+            cov = gen_cov(rng, Fn) if rng.random() < 0.65 else None
+            case.update(Fn=jl(Fn), Xi=jl(Xi), Lab=Lab.tolist(), Fn_cov=None if cov is None else jl(cov))
+        if rng.random() < 0.35:
+            case.update(call_form="positional", freqlim=some_freqlim(rng), hide=False)
+            if cls_name in FDD_FAMILY:
+                case.update(nSv=int(rng.integers(1, n)))
+        class_synth_case(ctx, case, exprs, meta)
     # ---- class level
     configs = []
     for d in range(ctx.n(2, 8)):
@@ -1292,6 +1861,8 @@ def run(ctx):
         pos += nout
         if item[0] == "tables":
             compare_tables(ctx, item, strs[0])
+        elif item[0] == "synth":
+            compare_synth(ctx, item, strs)
         else:
             compare_cmif(ctx, item, strs)
     acc = ctx.extra.get("markers_fed_back_to_mpe", {})
